@@ -131,6 +131,30 @@ def switch_on(tb, body, pred):
                 yield bi, dt
 
 
+CURRENT_FACTS = [None]     # set by the runner: lets the evaluator look into closures given to Option/Result combinators
+
+
+def closure_value(clo, bindings):
+    """Return term of a closure with its captures and the given parameter bindings substituted (None if not available)."""
+    F = CURRENT_FACTS[0]
+    if F is None or not (isinstance(clo, tuple) and clo and clo[0] == 'closure'):
+        return None
+    cb = F.closure(clo[1])
+    if cb is None:
+        return None
+    rt = return_term_of(F, cb)
+    m = {('upvar', i): c for i, c in enumerate(clo[2])}
+    m.update(bindings)
+    return subst(rt, m)
+
+
+def _opt_state(x, env):
+    """1 = Some/Ok-like present, 0 = absent, None = unknown, from a valuation of discr(x) / is_some(x) / is_ok(x)."""
+    sx = strip_sites(detry(x))
+    d = env.get(('discr', sx))
+    return d
+
+
 def eval_bool(t, env):
     """Evaluate a boolean/int term under env: dict mapping stripped sub-terms -> python value. Returns value or None."""
     st = strip_sites(t)
@@ -169,6 +193,33 @@ def eval_bool(t, env):
         return None
     if k == 'cast':
         return eval_bool(t[1], env)
+    if k == 'call':
+        nm = call_name(t)
+        a = t[2]
+        if nm in ('is_some', 'is_none') and len(a) == 1:
+            d = _opt_state(a[0], env)
+            if d is not None:
+                return (d == 1) if nm == 'is_some' else (d == 0)
+        if nm in ('is_ok', 'is_err') and len(a) == 1:
+            d = _opt_state(a[0], env)
+            if d is not None:
+                return (d == 0) if nm == 'is_ok' else (d == 1)
+        if nm in ('map_or', 'is_some_and', 'is_none_or') and len(a) >= 2:
+            d = _opt_state(a[0], env)
+            if d is not None:
+                if d == 0:
+                    return eval_bool(a[1], env) if nm == 'map_or' else (nm == 'is_none_or')
+                cv = closure_value(a[-1], {('param', 2): ('vfield', a[0], 'Some', '0')})
+                return eval_bool(cv, env) if cv is not None else None
+        if nm == 'unwrap_or' and len(a) == 2 and isinstance(a[0], tuple) and a[0] and a[0][0] == 'call' and call_name(a[0]) == 'map':
+            inner = a[0][2]
+            d = _opt_state(inner[0], env)
+            if d is not None:
+                if d == 0:
+                    return eval_bool(a[1], env)
+                cv = closure_value(inner[1], {('param', 2): ('vfield', inner[0], 'Some', '0')})
+                return eval_bool(cv, env) if cv is not None else None
+        return None
     if k == 'vfield' and t[2] == 'Continue':
         d = detry(t)
         if d is not t and d != t:
@@ -317,12 +368,17 @@ def reach_under(body, tb, env, start=0, stop_blocks=()):
 def find_terms(body, tb, pred):
     """All distinct (stripped) sub-terms satisfying pred among switch discriminants and call arguments of the body."""
     out = []
-    def visit(t):
+    def visit(t, depth=0):
         for x in walk(t):
             if isinstance(x, tuple) and x and isinstance(x[0], str) and pred(x):
                 sx = strip_sites(x)
                 if sx not in out:
                     out.append(sx)
+            if depth < 2 and isinstance(x, tuple) and x and x[0] == 'call' and call_name(x) in ('map_or', 'is_some_and', 'is_none_or', 'map', 'and_then', 'filter') and x[2]:
+                clo = x[2][-1]
+                cv = closure_value(clo, {('param', 2): ('vfield', x[2][0], 'Some', '0')})
+                if cv is not None:
+                    visit(cv, depth + 1)
     for bi in body.normal_blocks():
         t = body.term(bi)
         if not t:
@@ -333,6 +389,8 @@ def find_terms(body, tb, pred):
         elif t['k'] == 'call':
             for a in t['args']:
                 visit(tb.operand_term(a, bi, n))
+    for bi, si, t in ret_defs(tb):
+        visit(t)
     return out
 
 
